@@ -126,9 +126,16 @@ def gen_history(rr):
     # the name of the second platform and of the components are inputs too: cache labels and the regular expressions
     # that invalidate them are built from them (non-word characters, names that are prefixes of one another)
     ren = {'px': rr.choice(['px', 'px', 'openshift-cpu', 'lsf.gpu', 'p_x'])}
-    if rr.random() < 0.4:
+    r = rr.random()
+    if r < 0.3:
         ren.update({'c1': 'c', 'c2': 'c-x', 'c3': 'c.x', 'c4': 'cc'})
-    return rename(case, ren)
+    elif r < 0.55:
+        # valid names that are special in a regular expression
+        ren.update({'c0': 'dft+u', 'c1': 'opt(2)', 'c2': 'x[0]', 'c3': 'cost$', 'c4': 'dft'})
+    case = rename(case, ren)
+    # what a YAML document written with anchors and aliases gives the loader: components that share one mapping object
+    case['share'] = rr.choice([None, None, 'variables', 'command']) if len(case['doc']['components']) >= 2 else None
+    return case
 
 
 def rename(obj, ren):
@@ -259,7 +266,12 @@ def tamper(obj):
 def run_history(h, cnt):
     import experiment.model.frontends.flowir as F
     viol = []
-    conc = F.FlowIRConcrete(fix_doc(h['doc']), h['platform'], {})
+    doc = fix_doc(h['doc'])
+    if h.get('share') and len(doc['components']) >= 2:
+        # two components share one mapping object, as after `variables: &common {...}` / `variables: *common`
+        sect = h['share']
+        doc['components'][1][sect] = doc['components'][0][sect]
+    conc = F.FlowIRConcrete(doc, h['platform'], {})
     rr = random.Random(h['check_seed'])
     warm = set()
     nontrivial = False
